@@ -390,6 +390,13 @@ def record(kind, desc, history):
 def run(ctx):
     import os
     ctx.prove()
+    # generated tie (notes/C14_gen.md): the flag protocol is read off the source of the three classes and the
+    # discipline hypotheses of Cache.v are PROVED for it (coq/genprops/C14_gen.v)
+    import translate_cacheflags as TCF
+    ctx.gen_step("cacheflags", TCF.translate, "C14_gen",
+                 "harness/translate_cacheflags.py (ast -> control skeleton of every method of the three formulation "
+                 "classes and RoutingProblem, restricted to accesses to self; local-alias analysis) and the attribute / "
+                 "method-name classification tables and the fine-trace -> Cache.v-action monitor of coq/theories/PyCache.v")
     rng = ctx.rng
     quick = ctx.quick
     # mutation experiments only: VQ_C14_SKIP_ORACLE=1 shows what the trace validation alone reports
